@@ -17,6 +17,8 @@ import (
 	"github.com/m7913d/go-ntlm/ntlm"
 
 	"verifharness/gw"
+	"verifharness/tsgu"
+	"verifharness/wsraw"
 )
 
 // FrScriptHTTP is one request (or NTLM exchange) to the gateway endpoint.
@@ -28,6 +30,13 @@ type FrontScript struct {
 	// Prior: requests the same client made before this one; every cookie the gateway set in their
 	// responses is sent along with the later requests (a client that keeps cookies)
 	Prior []FrontStep `json:"prior,omitempty"`
+	// kind "tunuser": a tunnel is opened with right credentials of Scheme over Transport, then the requests of Interf
+	// are made (other users, wrong credentials, no credentials), then the tunnel's own packets follow: at every packet
+	// the tunnel acts for the user the backend confirmed when it was opened
+	Kind      string      `json:"kind,omitempty"`
+	Transport string      `json:"transport,omitempty"`
+	Scheme    string      `json:"scheme,omitempty"`
+	Interf    []FrontStep `json:"interf,omitempty"`
 }
 
 type FrontStep struct {
@@ -149,6 +158,9 @@ func getChallenge(rep *hreply, scheme string) string {
 // RunFront performs the scenario and records status, challenges and whether
 // the tunnel handler was reached (hook gw.enter), and as whom.
 func (i *Inst) RunFront(s *FrontScript, tw *TraceWriter, rng *rand.Rand) error {
+	if s.Kind == "tunuser" {
+		return i.runTunUser(s, tw, rng)
+	}
 	jar := map[string]string{}
 	prior := []string{}
 	for k, st := range s.Prior {
@@ -394,3 +406,61 @@ func (i *Inst) runFrontStep(s *FrontScript, tw *TraceWriter, rng *rand.Rand, jar
 }
 
 var _ = gw.Event{}
+
+
+// runTunUser: see FrontScript.Kind.
+func (i *Inst) runTunUser(s *FrontScript, tw *TraceWriter, rng *rand.Rand) error {
+	oo := OpenOpts{Transport: s.Transport}
+	user := ""
+	switch s.Scheme {
+	case "local":
+		user = "7"
+		oo.Basic = user + ":" + i.Users[user]
+	case "ntlm":
+		user = "nuser1"
+		oo.NTLM = &wsraw.NTLMCreds{User: user, Pass: i.Users[user]}
+	default:
+		return fmt.Errorf("tunuser: scheme %q", s.Scheme)
+	}
+	mechs := append([]string{}, i.Cfg.Auths...)
+	sort.Strings(mechs)
+	mark := i.P.Mark()
+	t, rep, err := i.Open(oo)
+	if err != nil {
+		return fmt.Errorf("open: %w", err)
+	}
+	if t == nil {
+		return fmt.Errorf("open refused: %d", rep.Status)
+	}
+	defer t.Close()
+	for k, st := range s.Interf {
+		ps := &FrontScript{ID: fmt.Sprintf("%s.i%d", s.ID, k), Cfg: s.Cfg, Method: st.Method, Authz: st.Authz}
+		if err := i.runFrontStep(ps, tw, rng, map[string]string{}, nil); err != nil {
+			return err
+		}
+	}
+	// the tunnel's own packets (with cookie authentication on as well they stop at the tunnel request, which has no cookie)
+	ended := false
+	for _, pkt := range [][]byte{tsgu.Handshake(1, 0, 0, 0), tsgu.TunnelCreate(0, "", false), tsgu.TunnelAuth("c")} {
+		r, err := t.Step(pkt)
+		if err != nil || r.End {
+			ended = true
+			break
+		}
+	}
+	seen := []string{}
+	for _, e := range i.P.Since(mark) {
+		if e.Cid == t.Cid && e.Pt == "proc.recv" && e.User != nil {
+			seen = append(seen, *e.User)
+		}
+	}
+	if len(seen) == 0 {
+		return fmt.Errorf("tunuser: the packet loop saw no packet of the tunnel")
+	}
+	interf := []string{}
+	for _, st := range s.Interf {
+		interf = append(interf, st.Method+":"+st.Authz)
+	}
+	tw.Line(M{"ev": "tunuser", "script": s.ID, "cls": strings.Join(mechs, "+"), "mechs": mechs, "transport": s.Transport, "scheme": s.Scheme, "confirmed": user, "seen": seen, "interf": interf, "ended": ended})
+	return nil
+}
